@@ -50,6 +50,7 @@ func runC08(p *Prog, r *Report) {
 	c08R8(p, r)
 	c08R9(p, r)
 	c08R10(p, r)
+	erasedErrorRequests(p, r, "C08-R12")
 	const r11 = "C08-R11"
 	r.Rule(r11, "lock balance in packages cred and ss2022: Lock/RLock only with the mutex not held by the function, Unlock/RUnlock only with the matching lock held, released at every exit (or by a deferred call) — the error returns of the credential operations included")
 	nb := lockBalance(p, r, r11, "cred", nil) + lockBalance(p, r, r11, "ss2022", nil)
@@ -948,4 +949,107 @@ func c08BothStores(p *Prog, r *Report, rule string, fc *FuncCtx) {
 		}
 		r.Check(!around[fc.G.Exit], rule, fc.Name+":mutates-store:"+f.Name(), p.posStr(fc.Body.Pos()), "every path mutates the "+f.Name()+" store or finds it nil", "a path through "+fc.Name+" changes one live store and leaves the "+f.Name()+" store (non-nil) unchanged: on servers with both transports a key added, rotated or deleted through the API is honoured by one transport only")
 	}
+}
+
+// erasedErrorRequests (C08-R12, C02-R7): a handshake handler that turns a failure into a successful
+// request (the unauthenticated-connection fallback of the SS2022 stream server) must hand out a
+// request that carries nothing of the failed handshake: by the time the error is erased, every field
+// of the request that any other part of the function may have set — the user name found through the
+// identity header before the header failed to open, a parsed address, a payload — has been
+// overwritten in the same block, by a whole-value assignment or field by field.
+func erasedErrorRequests(p *Prog, r *Report, rule string) int {
+	r.Rule(rule, "a failure turned into a fallback request carries nothing of the failed handshake: in every function of package ss2022 with a netio.ConnRequest result, each assignment of nil to the error result (in the function or its closures) is dominated, within its context, by a whole-value assignment of the request or by an assignment of every request field that the function assigns anywhere — in particular Username, which is set as soon as the identity header names a user, before the request header is authenticated")
+	pkg := p.Pkg("ss2022")
+	n := 0
+	p.AllFuncs(pkg, func(top *FuncCtx) {
+		if top.Decl == nil || top.Decl.Type.Results == nil {
+			return
+		}
+		info := top.Info()
+		var reqObj, errObj types.Object
+		for _, f := range top.Decl.Type.Results.List {
+			for _, nm := range f.Names {
+				o := info.Defs[nm]
+				if o == nil {
+					continue
+				}
+				if namedTypeName(o.Type()) == "ConnRequest" {
+					reqObj = o
+				}
+				if o.Type().String() == "error" {
+					errObj = o
+				}
+			}
+		}
+		if reqObj == nil || errObj == nil {
+			return
+		}
+		ctxs := allCtxs(p, top)
+		// fields assigned anywhere
+		fields := map[string]bool{}
+		fieldOf := func(l ast.Expr) string {
+			sel, ok := ast.Unparen(l).(*ast.SelectorExpr)
+			if ok && objOf(info, sel.X) == reqObj {
+				return sel.Sel.Name
+			}
+			return ""
+		}
+		for _, fc := range ctxs {
+			for _, v := range fc.G.V {
+				if as, ok := v.Node.(*ast.AssignStmt); ok && v.Kind == VStmt {
+					for _, l := range as.Lhs {
+						if f := fieldOf(l); f != "" {
+							fields[f] = true
+						}
+					}
+				}
+			}
+		}
+		for _, fc := range ctxs {
+			for _, v := range fc.G.V {
+				as, ok := v.Node.(*ast.AssignStmt)
+				if !ok || v.Kind != VStmt || len(as.Lhs) != len(as.Rhs) {
+					continue
+				}
+				erases := false
+				for i, l := range as.Lhs {
+					if objOf(info, l) == errObj && isNilExpr(info, as.Rhs[i]) {
+						erases = true
+					}
+				}
+				if !erases {
+					continue
+				}
+				n++
+				var whole []int
+				byField := map[string][]int{}
+				for _, u := range fc.G.V {
+					ua, ok := u.Node.(*ast.AssignStmt)
+					if !ok || u.Kind != VStmt {
+						continue
+					}
+					for _, l := range ua.Lhs {
+						if objOf(info, l) == reqObj && len(ua.Lhs) == len(ua.Rhs) {
+							whole = append(whole, u.ID)
+						}
+						if f := fieldOf(l); f != "" {
+							byField[f] = append(byField[f], u.ID)
+						}
+					}
+				}
+				var missing []string
+				for f := range fields {
+					if !fc.G.Dominates(append(append([]int{}, whole...), byField[f]...), v.ID) {
+						missing = append(missing, f)
+					}
+				}
+				sort.Strings(missing)
+				r.Check(len(missing) == 0, rule, fmt.Sprintf("%s:erased-error-request-is-fresh", top.Name), p.posStr(as.Pos()), "the request handed out with the erased error is assigned as a whole (or every field the function ever sets is overwritten) before the error is erased",
+					"the error is erased and the request returned as a success, but field(s) "+strings.Join(missing, ", ")+" of the request are not overwritten on every path to this point: a connection that failed authentication after the identity header named a user is handed to the fallback under that user's name (and charged to it), or carries a half-parsed address or payload")
+			}
+		}
+	})
+	r.Count("erased_error_sites", n)
+	r.Floor(rule, 1)
+	return n
 }
